@@ -114,9 +114,11 @@ type VC struct {
 	allocBlock       map[string]*ssa.BasicBlock                   // allocation constants (and values defined from them) -> block
 	loops            []*loopInfo
 	loopHead         map[*loopInfo]*State
-	symsUsed         map[string]bool      // prelude symbols the contracts of this function mention
-	symsFrozen       map[string]bool      // ... as found by the discovery pass
-	inlineTag        string               // non-empty while a helper without contract is executed in place
+	symsUsed         map[string]bool   // prelude symbols the contracts of this function mention
+	symsFrozen       map[string]bool   // ... as found by the discovery pass
+	renamed          map[string]string // local named by the contract -> local of the function it is read as
+	localNameSet     map[string]bool
+	inlineTag        string // non-empty while a helper without contract is executed in place
 	inlineN          int
 	inlineDepth      int
 	inlineStack      []*ssa.Function
